@@ -267,7 +267,7 @@ pub fn check(mut ctx: Ctx, replay: Option<J>) -> ! {
   // the service started on a directory of model files (clashing and junk files among them), then driven on
   let n_started = if quick { 6 } else { 30 };
   for _ in 0..n_started {
-    let ms: Vec<String> = ALPHABET.iter().take(9).filter(|_| rng.below(100) < 45).map(|m| m.0.to_string()).collect();
+    let ms: Vec<String> = ALPHABET.iter().take(6).filter(|_| rng.below(100) < 55).map(|m| m.0.to_string()).collect();
     let ops = random_path(&mut rng, 12);
     paths.push(run_started_path(&mut bodies, &ms, &ops));
     let mut all = vec![json!({"op": "start", "ms": ms})];
